@@ -96,10 +96,15 @@ func cmdVerify(args []string) {
 		for _, n := range sortedKeys(g.contracts.Lemmas) {
 			keys = append(keys, "lemma."+n)
 		}
+		for _, n := range sortedKeys(g.contracts.Specs) {
+			if g.contracts.Specs[n].Opaque {
+				keys = append(keys, "stable."+n)
+			}
+		}
 	}
 	for _, k := range keys {
 		fc := g.contracts.Funcs[k]
-		if strings.HasPrefix(k, "lemma.") {
+		if strings.HasPrefix(k, "lemma.") || strings.HasPrefix(k, "stable.") {
 			fc = &FuncContract{Key: k}
 		}
 		if fc == nil {
@@ -107,7 +112,7 @@ func cmdVerify(args []string) {
 			bad++
 			continue
 		}
-		if !strings.HasPrefix(k, "lemma.") && (fc.Trusted || g.funcs[k] == nil || len(g.funcs[k].Blocks) == 0) {
+		if !strings.HasPrefix(k, "lemma.") && !strings.HasPrefix(k, "stable.") && (fc.Trusted || g.funcs[k] == nil || len(g.funcs[k].Blocks) == 0) {
 			if len(keys) < 5 {
 				fmt.Printf("%s: trusted/external, skipped\n", k)
 			}
@@ -117,6 +122,8 @@ func cmdVerify(args []string) {
 		var res *FuncResult
 		if strings.HasPrefix(k, "lemma.") {
 			res = g.verifyLemma(strings.TrimPrefix(k, "lemma."))
+		} else if strings.HasPrefix(k, "stable.") {
+			res = g.verifyStable(strings.TrimPrefix(k, "stable."))
 		} else {
 			res = g.verifyFunc(k)
 		}
